@@ -34,6 +34,8 @@ class Fn(object):
     def __call__(self, arg):
         if self.outcome == "fail":
             raise ValueError("boom")
+        if self.outcome == "retryable":
+            raise KeyError("again")
         r = Obj("result")
         self.res_holder.append(weakref.ref(r))
         return r
@@ -42,7 +44,7 @@ class Fn(object):
 def make(kind, base, polls):
     from more_executors import Executors
     if kind == "retry":
-        return Executors.with_retry(base, max_attempts=2, sleep=0.2, exception_base=KeyError, name="w")
+        return Executors.with_retry(base, max_attempts=2, sleep=5.0, exception_base=KeyError, name="w")
     if kind == "poll":
         def poll_fn(ds):
             for d in ds:
@@ -116,7 +118,7 @@ def build(p):
         refs = []
         for i, h in enumerate(hist, start=1):
             holder = []
-            fn = Fn("fail" if h == "fail" else "ok", holder)
+            fn = Fn("fail" if h == "fail" else "retryable" if h == "cancel_between" else "ok", holder)
             fn.sub = i
             arg = Obj("arg")
             fut = ex.submit(fn, arg)
@@ -125,6 +127,10 @@ def build(p):
                 fut.cancel()
             elif h == "cancel_inflight":
                 E.vsleep(10)
+                fut.cancel()
+            elif h == "cancel_between":
+                # the first attempt fails at 60, the retry is due 5 s later: cancel while the job sleeps between retries
+                E.vsleep(150)
                 fut.cancel()
             E.vsleep(400)
             refs.append((i, weakref.ref(fut), weakref.ref(fn), weakref.ref(arg), holder))
